@@ -59,6 +59,7 @@ void sha256hash::getHash(const u8_t *input)
     temph[2] = temph[1];
     temph[1] = temph[0];
     temph[0] = t1 + t2;
+    WENCRY_VERIF_ROUND(256, i, temph);
   }
   for (u32_t i = 0; i < 8; ++i)
     h[i] += temph[i];
